@@ -873,7 +873,7 @@ func lawsAPI14(s sink, c case14, d *docCtx14) (string, bool) {
 		if cls2 != cls || (cls == ClsOk && !eqR14(d2, doc)) {
 			report("tee", fmt.Sprintf("Tee(SetField) gives %s %s, SetField alone %s %s", cls, docString(doc), cls2, docString(d2)))
 		}
-		if cls == ClsOk && found != nil {
+		if cls == ClsOk && found != nil && stable14(c.Path, a.Name) { // (H1): the path still selects the node afterwards
 			if _, x, _ := lookupOn(doc, c.Path); x == nil || x.YNode() != found.YNode() {
 				report("tee", "Tee did not return the node it was applied to")
 			}
